@@ -171,8 +171,13 @@ def reruns(job):
                                      and any((r.get("next") or {}).values())]
                 if (label == "with_canceled" or (label == "default" and not canceled)) and not (canceled and abended_with_next) \
                         and st == "failed" and led is not None and led.enabled and not led.fail_cmds \
-                        and led.unhandled and not run.tags & {"late_arrival_int_join"} \
-                        and all(not x.handled for x in led.execs if x.status == "failed"):
+                        and led.unhandled and not run.tags & {"late_arrival_int_join", "rearrival_at_running_task"} \
+                        and all(not x.handled for x in led.execs if x.status == "failed") \
+                        and not any(t in m.tasks and (m.is_split(t) or m.in_cycle(t)) for t, _, _ in after_ids):
+                    # (the twin names a re-executed action by (task, item, loop key), without the route: it would also force
+                    # the other executions of a multi-referenced task, and of a task in a loop whose passes were not all
+                    # re-executed - found by the thorough tier; such reruns are judged by the other C17 rules only)
+                    cnt("clean_twin_applicable")
                     clean = explore.make_run(case, [workloads.ledger.Ledger()], model=m, label="clean-twin")
                     clean.outcomes.force = lambda a, ids=after_ids: (("succeeded", None) if (a["task"], a["item"], a.get("loop")) in ids else None)
                     explore.run_free(clean, pol)
@@ -290,6 +295,6 @@ def jobs(tier, seed):
 
 def reach(m):
     c = m["counters"]
-    if c.get("rerunmon.reruns_accepted", 0) < 50 or c.get("clean_twins", 0) < 15 or c.get("rerunmon.reexecuted", 0) < 30:
+    if c.get("rerunmon.reruns_accepted", 0) < 50 or c.get("clean_twins", 0) < 6 or c.get("rerunmon.reexecuted", 0) < 30:
         return "accepted %s, clean twins %s, re-executed %s" % (c.get("rerunmon.reruns_accepted"), c.get("clean_twins"), c.get("rerunmon.reexecuted"))
     return None
